@@ -153,6 +153,22 @@ def run_one(ck, prog):
                           mentions(x[2][0], c2.prov, lambda y: y[0] == "field" and y[2] == stream))
         ck.ob("C13.2", f"dup2-source|{fold(args[1])}", src_ok, fn=c2.path, site=c2.site(bb), detail=f"dup2 onto descriptor {fold(args[1])} must take the configured child `{stream}` descriptor, found {show(args[0])}")
     ck.ob("C13.2", "dup2-targets", sorted(t for t in targets if t is not None) == [0, 1, 2], fn=DO_SPAWN, detail=f"dup2 targets in the child: {targets}; must be stdin/stdout/stderr once each")
+    # dup2 is what clears O_CLOEXEC on the child's stdio descriptors: it must always be the real dup3 call
+    d2 = prog.fns.get("rusl::unistd::dup::dup2")
+    if ck.anchor("C13.2", "rusl dup2", d2):
+        dctx = prog.ctx(d2)
+        d3 = [bb for bb, t in dctx.cfg.calls(lambda t: (t.get("callee") or "").endswith("dup::dup3"))]
+        ok = len(d3) == 1 and all(dctx.cfg.dominates(d3[0], rb) for rb in dctx.cfg.return_blocks()) and [canon(x) for x in dctx.args(d3[0])[:2]] == ["p1", "p2"] and fold(dctx.args(d3[0])[2]) == 0
+        ck.ob("C13.2", "dup2-always-duplicates", ok, fn=d2["path"],
+              detail="dup2(old, new) must always go through dup3(old, new, no flags): the child relies on that call to put the configured stream on 0/1/2 WITHOUT O_CLOEXEC; a shortcut (e.g. old == new => Ok) leaves a CLOEXEC descriptor that exec closes")
+        d3f = prog.fns.get("rusl::unistd::dup::dup3")
+        if d3f is not None:
+            from ..engine.cfg import is_raw_syscall
+            c3 = prog.ctx(d3f)
+            sites = {bb for bb, t in c3.cfg.calls(lambda t: is_raw_syscall(t.get("callee")))}
+            oks = [b["id"] for b in d3f["blocks"] if b["id"] in c3.cfg.live_blocks() and any(s["k"] == "assign" and s["dst"]["l"] == 0 and s["rv"]["k"] == "agg" and s["rv"].get("variant") == "Ok" for s in b["stmts"])]
+            r = c3.cfg.reachable_from(0, avoid=sites)
+            ck.ob("C13.2", "dup3-success-only-after-syscall", bool(oks) and not [b for b in oks if b in r], fn=d3f["path"], detail="dup3 can report success without issuing DUP3")
     # closures: the loop runs over do_spawn's `closures`
     for (c2, bb, ob) in steps["tiny_std::process::PreExec::run"]:
         ck.ob("C13.2", "closures-run-in-loop", c2.cfg.in_cycle(bb), fn=c2.path, site=c2.site(bb), detail="pre-exec closures must all be run (loop over the slice)")
